@@ -332,14 +332,21 @@ async fn styles_case(rep: &mut Report, rng: &mut Rng, rx: Rx, style: Style, tr: 
 async fn detach_case(rep: &mut Report, rng: &mut Rng, rx: Rx, event: &str, tr: Transport) {
   let ctx = util::new_ctx();
   let run = (rng.next() & 0x7FFF_FFFF) as u32;
-  let (rt, st) = if rx == Rx::Pull { (SocketType::Pull, SocketType::Push) } else { (SocketType::Sub, SocketType::Pub) };
+  let (rt, st) = match rx {
+    Rx::Pull => (SocketType::Pull, SocketType::Push),
+    Rx::Sub => (SocketType::Sub, SocketType::Pub),
+    Rx::Dealer => (SocketType::Dealer, SocketType::Dealer),
+    _ => (SocketType::Router, SocketType::Dealer),
+  };
   let r = mk(&ctx, rt).await;
   if rx == Rx::Sub {
     r.set_option(opt::SUBSCRIBE, "").await.unwrap();
   }
   let mon = r.monitor(256).await.unwrap();
   let ep = util::bind_fresh(&r, tr).await.unwrap();
-  let a = mk(&ctx, st).await;
+  // the sender of the half-read message lives in a context of its own, so that it can also be the one that goes away
+  let ctx_a = util::new_ctx();
+  let a = mk(&ctx_a, st).await;
   a.connect(&ep).await.unwrap();
   let ctx2 = util::new_ctx();
   let b = mk(&ctx2, st).await;
@@ -370,6 +377,15 @@ async fn detach_case(rep: &mut Report, rng: &mut Rng, rx: Rx, event: &str, tr: T
       let _ = b.close().await;
       let _ = util::wait_event(&mon, Duration::from_secs(3), |e| matches!(e, SocketEvent::Disconnected { .. })).await;
     }
+    // the peer that SENT the half-read message goes away (the message itself had arrived whole)
+    "self_detach" => {
+      let _ = a.close().await;
+      let _ = util::wait_event(&mon, Duration::from_secs(3), |e| matches!(e, SocketEvent::Disconnected { .. })).await;
+    }
+    "self_kill" => {
+      let _ = tokio::time::timeout(Duration::from_secs(5), ctx_a.term()).await;
+      let _ = util::wait_event(&mon, Duration::from_secs(3), |e| matches!(e, SocketEvent::Disconnected { .. })).await;
+    }
     _ => {
       let _ = tokio::time::timeout(Duration::from_secs(5), ctx2.term()).await;
       let _ = util::wait_event(&mon, Duration::from_secs(3), |e| matches!(e, SocketEvent::Disconnected { .. })).await;
@@ -381,9 +397,11 @@ async fn detach_case(rep: &mut Report, rng: &mut Rng, rx: Rx, event: &str, tr: T
   let rest = read_stream(&r, style, rng, 1, Duration::from_secs(3)).await;
   seen.extend(rest);
   rep.case(&("detach", rx, event, tr), true);
-  judge_stream(rep, &format!("rx={:?}|other_peer_{}_mid_message", rx, event), &format!("{:?}: another peer {}s while a 6-frame message is half read ({})", rx, event, tr.name()), run, &sent, &seen, false, true);
+  let who = if event.starts_with("self_") { "sending_peer" } else { "other_peer" };
+  judge_stream(rep, &format!("rx={:?}|{}_{}_mid_message", rx, who, event.trim_start_matches("self_")), &format!("{:?}: {} {}s while a 6-frame message is half read ({})", rx, if who == "other_peer" { "another peer" } else { "the peer that sent it" }, event.trim_start_matches("self_"), tr.name()), run, &sent, &seen, rt == SocketType::Router, true);
   let _ = tokio::time::timeout(Duration::from_secs(12), ctx.term()).await;
   let _ = tokio::time::timeout(Duration::from_secs(5), ctx2.term()).await;
+  let _ = tokio::time::timeout(Duration::from_secs(5), ctx_a.term()).await;
 }
 
 /// Scenario C: more frames than supported: Err at the sender or that one connection closes; no
@@ -718,8 +736,8 @@ fn main() {
         }
       }
     }
-    for rx in [Rx::Pull, Rx::Sub] {
-      for ev in ["attach", "detach", "kill"] {
+    for rx in [Rx::Pull, Rx::Sub, Rx::Dealer, Rx::Router] {
+      for ev in ["attach", "detach", "kill", "self_detach", "self_kill"] {
         for tr in [Transport::Tcp, Transport::Ipc] {
           idx += 1;
           if args.mine(idx) {
